@@ -489,11 +489,13 @@ def run(rng, tier, res=None, want=("prim", "fit", "semi")):
             msgs = O.check_forest(n, wf, true_lab, proto, cost, pred, plabel, order)
             if semi:
                 if any(proto[t] for t in range(nLab, n)):
-                    viol("C02", [f"unlabeled samples {[t for t in range(nLab, n) if proto[t]]} were selected as prototypes"], meta)
+                    for pp_ in ("C02", "C15"):      # C15: the prototypes of the semi-supervised forest come from the labeled samples
+                        viol(pp_, [f"unlabeled samples {[t for t in range(nLab, n) if proto[t]]} were selected as prototypes"], meta)
                 if nLab <= 6:
                     sets = O.mst_boundary_sets(nLab, wf, lab)
                     if sets is not None and frozenset(t for t in range(nLab) if proto[t]) not in sets:
-                        viol("C02", [f"semi-supervised prototypes {[t for t in range(n) if proto[t]]} are not the class-boundary endpoints of an MST of the labeled samples"], meta)
+                        for pp_ in ("C02", "C15"):
+                            viol(pp_, [f"semi-supervised prototypes {[t for t in range(n) if proto[t]]} are not the class-boundary endpoints of an MST of the labeled samples"], meta)
                 lab_field = [nd[i].label for i in range(n)]
                 for t in range(n):
                     if not proto[t] and lab_field[t] != plabel[t]:
